@@ -613,7 +613,20 @@ def run(ctx: Ctx):
     empty = frozenset()
     for f in sorted(entries, key=lambda x: x.qname):
         info = rng.seed_info(f)
-        ev = rng.analyse(f, empty)
+        sigma = empty
+        parent = getattr(f, "parent", None)
+        if parent is not None and f.cls is None:
+            # a helper nested in a function is only ever called from there: it is analysed under what every one of
+            # those call sites fixes (a literal tuple as `init`, a literal option), not with unknown arguments
+            sites = [c for c in ast.walk(parent.node) if isinstance(c, ast.Call) and isinstance(c.func, ast.Name) and c.func.id == f.name]
+            escapes = any(isinstance(n, ast.Name) and n.id == f.name and isinstance(n.ctx, ast.Load) and not any(n is c.func for c in sites) for n in ast.walk(parent.node))
+            if sites and not escapes:
+                common = None
+                for c in sites:
+                    sg = set(_sigma_for(f, c, False, {}))
+                    common = sg if common is None else (common & sg)
+                sigma = frozenset(common or ())
+        ev = rng.analyse(f, sigma)
         for e in ev.values():
             c = e["node"]
             if e["kind"] in ("draw", "bdraw"):
